@@ -289,28 +289,35 @@ def judge_file(case):
                 if ast.dump(py, include_attributes=True) != ast.dump(res, include_attributes=True):
                     raise core.HarnessError(f"c09: walker accepted trees whose dumps differ: {path}")
         return out
-    # the file as a whole fails: report it, then judge every top-level statement on its own so
-    # that one defect does not hide the rest of the file
-    _report_failure(out, kind, res, src, py, lines, "")
+    # the file as a whole fails: judge every top-level statement on its own, so that one defect
+    # does not hide the rest of the file and the failing statement is known
     out.cls("whole-file-failed:per-statement-fallback")
+    if kind == "reject":
+        _report_failure(out, kind, res, src, py, lines)
+    whole = f"crash|{_fail_kind(kind, res)}" if kind == "crash" else None
     for s in py.body:
         seg, lo = _segment(lines, s)
         text = "\n" * (lo - 1) + seg
         k2, r2 = _outcome_of(text)
         if k2 == "ok":
             sub = ast.Module(body=[s], type_ignores=[])
-            if len(r2.body) != 1 and not isinstance(s, ast.ClassDef):
+            if len(r2.body) != 1:
                 out.fail("Module|body[len]", source=seg[:300])
                 continue
             compare_trees(sub, r2, out, src)
         elif k2 != "recursion":
-            _report_failure(out, k2, r2, src, py, lines, "")
+            _report_failure(out, k2, r2, src, py, lines, stmt=s)
+    if whole and not any(sig == whole for sig, _ in out.failures):
+        _report_failure(out, kind, res, src, py, lines)  # only the file as a whole crashes
     return out
 
 
-def _report_failure(out, kind, e, src, py, lines, prefix):
+_MINIMISED = set()
+
+
+def _report_failure(out, kind, e, src, py, lines, stmt=None):
+    """One failure per signature and file; with the smallest statement that fails alike."""
     lineno = getattr(e, "lineno", None) if kind == "reject" else None
-    mini = None
     cellname = "?"
     if kind == "reject" and isinstance(lineno, int):
         off = getattr(e, "offset", None) or 1
@@ -327,30 +334,46 @@ def _report_failure(out, kind, e, src, py, lines, prefix):
         head = soft_head(py, lines, lineno)
         if head:
             cellname = f"soft-keyword-head:{head}"
-        mini = minimise(src, py, lineno, kind, e)
-    elif kind == "crash":
-        # find the top-level statement that crashes alone, then minimise inside it
-        for s in py.body:
-            seg, lo = _segment(lines, s)
-            k2, e2 = _outcome_of(seg)
-            if k2 == "crash" and _fail_kind(k2, e2) == _fail_kind(kind, e):
-                mini = seg
-                for inner in ast.walk(s):
-                    if isinstance(inner, ast.stmt) and inner is not s:
-                        seg2 = textwrap.dedent(_segment(lines, inner)[0])
-                        try:
-                            ast.parse(seg2)
-                        except SyntaxError:
-                            continue
-                        k3, e3 = _outcome_of(seg2)
-                        if k3 == "crash" and _fail_kind(k3, e3) == _fail_kind(kind, e) \
-                                and len(seg2) < len(mini):
-                            mini = seg2
-                break
     if kind == "reject":
-        sig = f"{prefix}reject:{cellname}|{_fail_kind(kind, e)}"
+        sig = f"reject:{cellname}|{_fail_kind(kind, e)}"
     else:
-        sig = f"{prefix}crash|{_fail_kind(kind, e)}"
+        sig = f"crash|{_fail_kind(kind, e)}"
+    if any(s_ == sig for s_, _ in out.failures):
+        return
+    mini = None
+    if sig in _MINIMISED:
+        pass  # one minimal example per signature and worker process is enough
+    elif kind == "reject" and isinstance(lineno, int):
+        _MINIMISED.add(sig)
+        mini = minimise(src, py, lineno, kind, e)
+    elif kind == "crash" and stmt is not None:
+        # the top-level statement crashes alone: descend into the first nested statement that
+        # still crashes alone, as long as there is one
+        _MINIMISED.add(sig)
+        want = _fail_kind(kind, e)
+        mini = _segment(lines, stmt)[0]
+        cur = stmt
+        for _ in range(12):
+            nxt = None
+            for child in ast.iter_child_nodes(cur):
+                kids = [child] if isinstance(child, ast.stmt) else [
+                    g for g in ast.iter_child_nodes(child) if isinstance(g, ast.stmt)] \
+                    if isinstance(child, (ast.ExceptHandler, ast.match_case)) else []
+                for n in kids:
+                    seg2 = textwrap.dedent(_segment(lines, n)[0])
+                    try:
+                        ast.parse(seg2)
+                    except SyntaxError:
+                        continue
+                    k3, e3 = _outcome_of(seg2)
+                    if k3 == "crash" and _fail_kind(k3, e3) == want:
+                        nxt, mini = n, seg2
+                        break
+                if nxt is not None:
+                    break
+            if nxt is None:
+                break
+            cur = nxt
     out.fail(sig, error=repr(e)[:300], line=lineno,
              source_lines="\n".join(lines[max(0, (lineno or 1) - 3):(lineno or 1) + 1])[:500],
              minimal=(mini or "")[:1500])
@@ -516,7 +539,8 @@ def _plain_python_failures(text, pad):
     if kind == "ok":
         compare_trees(py, res, out, src)
     elif kind != "recursion":
-        _report_failure(out, kind, res, src, py, src.split("\n"), "")
+        _report_failure(out, kind, res, src, py, src.split("\n"),
+                        stmt=py.body[-1] if py.body else None)
     return {sig for sig, _ in out.failures}
 
 
@@ -674,18 +698,59 @@ def fragment_cases():
     })
 
 
+def _resume_key():
+    """Identifies the code under test and the oracle: results are only ever reused for the very
+    same grammar, compiler and check."""
+    import hashlib
+
+    h = hashlib.sha1()
+    repo = os.environ.get("VERIF_REPO", "/repo")
+    here = os.path.dirname(os.path.abspath(__file__))
+    for f in (os.path.join(repo, "src/scenic/syntax/scenic.gram"),
+              os.path.join(repo, "src/scenic/syntax/compiler.py"),
+              os.path.join(repo, "src/scenic/syntax/ast.py"),
+              os.path.abspath(__file__), os.path.join(os.path.dirname(here), "c09_diff.py")):
+        with open(f, "rb") as fh:
+            h.update(fh.read())
+    return h.hexdigest()[:16]
+
+
+def _judge_file_resumable(case, limit, resume_dir, key):
+    """Optional (env VERIF_C09_RESUME=<dir>): an interrupted thorough run can be restarted
+    without recomputing the files already judged by the same code + oracle."""
+    import json
+
+    path = None
+    if resume_dir:
+        path = os.path.join(resume_dir, key, core.digest(case) + ".json")
+        try:
+            with open(path) as f:
+                d = json.load(f)
+            return core.Outcome(d["nontrivial"], d["classes"],
+                                [(a, b) for a, b in d["failures"]], d["inconclusive"])
+        except (OSError, ValueError, KeyError):
+            pass
+    try:
+        with core.time_limit(limit):
+            out = judge_file(case)
+    except core.CaseTimeout:
+        out = core.Outcome(inconclusive=True, classes=["timeout"])
+    if path:
+        core.write_json(path, {"nontrivial": out.nontrivial, "classes": out.classes,
+                               "failures": out.failures, "inconclusive": out.inconclusive})
+    return out
+
+
 def run_shard(shard, tier):
     D.selfcheck()
     col = core.Collector(PROP, shard["id"])
     if shard["kind"] == "files":
         limit = 240 if tier == "quick" else 1500
+        resume_dir = os.environ.get("VERIF_C09_RESUME") if tier == "thorough" else None
+        key = _resume_key() if resume_dir else None
         for path in shard["files"]:
             case = {"kind": "file", "path": path}
-            try:
-                with core.time_limit(limit):
-                    out = judge_file(case)
-            except core.CaseTimeout:
-                out = core.Outcome(inconclusive=True, classes=["timeout"])
+            out = _judge_file_resumable(case, limit, resume_dir, key)
             col.add(case, out)
         col.extra["corpus_files_done"] = len(shard["files"])
         if tier == "thorough":
